@@ -98,3 +98,22 @@ instances! {
     c06_k5_events_are_filtered => events_are_filtered();
     c05_k9_mode_dispatch => mode_dispatch();
 }
+
+/// C05.K8 — registration reaches the graph unchanged: AssetReloadInfos::from_type / HotReloadingData::add_asset forward
+/// (key, dependency set, type) to DepsGraph::insert_asset
+fn add_asset_forwards() {
+    let mut d = data();
+    let deps = crate::hot_reloading::records::amv_h::deps_of(vec![crate::hot_reloading::records::amv_h::dep_file("a", "x"), crate::hot_reloading::records::amv_h::dep_dir("d")]);
+    d.add_asset(AssetReloadInfos::from_type("a".into(), deps, crate::key::Type::of::<A>()));
+    unsafe {
+        assert!(g::INSERT_CALLS == 1 && g::INSERT_ID0 == b'a' && g::INSERT_TY_IS_A && g::INSERT_NDEPS == 2 && g::INSERT_HAS_FILE_AND_DIR, "C05 a registration reaches the graph with the same key, dependency set and type");
+    }
+    std::mem::forget(d);
+}
+#[kani::proof]
+#[kani::unwind(8)]
+#[kani::stub(DepsGraph::insert_asset, g::insert_asset_rec)]
+#[kani::stub(std::thread::available_parallelism, crate::amv::common::par1)]
+pub(crate) fn c05_k8_add_asset_forwards() {
+    add_asset_forwards()
+}
